@@ -105,6 +105,7 @@ def run(ctx, model=None):
             check_case(ctx, gen.dead_shape_game(rng, kind, pat), model)
     for k in range(12 if ctx.quick() else 200):
         check_case(ctx, gen.tiny_reach_game(rng), model)
+        check_case(ctx, gen.parallel_dead_game(rng), model)
     for k in range(3 if ctx.quick() else 20):
         check_case(ctx, gen.slow_reward_game(rng), model, limit=60.0)
     N = 200 if ctx.quick() else 5000
